@@ -11,7 +11,7 @@ that every keyboard except `DvorakOnQwerty` is implemented by `generic_map_keyco
 namespace Chewing
 open Gen
 
-structure KeyEvent where
+structure KeyEv where
   index : Nat
   code : Nat
   unicode : Nat
@@ -27,7 +27,7 @@ def modNumlock (m : Nat) : Bool := m / 8 % 2 == 1
 abbrev KbTables := List Nat × List Nat × List Nat
 
 /-- `generic_map_keycode` -/
-def genericMap (kb : KbTables) (code mods : Nat) : Option KeyEvent :=
+def genericMap (kb : KbTables) (code mods : Nat) : Option KeyEv :=
   match kb.1.findIdx? (· == code) with
   | none => none
   | some i =>
@@ -36,7 +36,7 @@ def genericMap (kb : KbTables) (code mods : Nat) : Option KeyEvent :=
     | _, _ => none
 
 /-- `DvorakOnQwerty::map_with_mod`: position from the Qwerty matrix, code and character from Dvorak's -/
-def dvorakOnQwertyMap (qwerty dvorak : KbTables) (code mods : Nat) : Option KeyEvent :=
+def dvorakOnQwertyMap (qwerty dvorak : KbTables) (code mods : Nat) : Option KeyEv :=
   match qwerty.1.findIdx? (· == code) with
   | none => none
   | some i =>
@@ -48,7 +48,7 @@ def kbTables (name : String) : Option KbTables :=
   (genericKeyboards.find? (·.1 == name)).map (·.2)
 
 /-- `KeyboardLayout::map_with_mod` of the keyboard called `name` -/
-def mapWithMod (name : String) (code mods : Nat) : Option KeyEvent :=
+def mapWithMod (name : String) (code mods : Nat) : Option KeyEv :=
   if name == "dvorak_on_qwerty" then
     match kbTables "qwerty", kbTables "dvorak" with
     | some q, some d => dvorakOnQwertyMap q d code mods
@@ -65,15 +65,15 @@ def asciiItem (tbl : List (Nat × Nat × Nat)) (ascii : Nat) : Nat × Nat :=
   | none => (0, 0)
 
 /-- `KeyboardLayout::map_ascii` on a generic keyboard -/
-def mapAsciiT (kb : KbTables) (ascii : Nat) : Option KeyEvent :=
+def mapAsciiT (kb : KbTables) (ascii : Nat) : Option KeyEv :=
   let item := asciiItem keycodeMap ascii
   genericMap kb item.1 item.2
 
-def mapAscii (name : String) (ascii : Nat) : Option KeyEvent :=
+def mapAscii (name : String) (ascii : Nat) : Option KeyEv :=
   let item := asciiItem keycodeMap ascii
   mapWithMod name item.1 item.2
 
-def mapAsciiNumlock (name : String) (ascii : Nat) : Option KeyEvent :=
+def mapAsciiNumlock (name : String) (ascii : Nat) : Option KeyEv :=
   let item := asciiItem numlockMap ascii
   mapWithMod name item.1 item.2
 
